@@ -6,7 +6,14 @@ import (
 	"os"
 	"sort"
 	"strings"
+
+	"golang.org/x/tools/go/ssa"
+	"golang.org/x/tools/go/ssa/ssautil"
 )
+
+var devHooks = map[string]func(*Verifier, []string){}
+
+func allFuncs(v *Verifier) map[*ssa.Function]bool { return ssautil.AllFunctions(v.prog) }
 
 func main() {
 	if len(os.Args) < 2 {
@@ -16,6 +23,12 @@ func main() {
 	switch os.Args[1] {
 	case "dev":
 		devMain(os.Args[2:])
+	case "ssa":
+		v, err := LoadVerifier("/repo", "/verif/deps")
+		if err != nil {
+			panic(err)
+		}
+		devHooks["ssa"](v, os.Args[2:])
 	case "check":
 		os.Exit(checkMain(os.Args[2:]))
 	default:
@@ -114,6 +127,9 @@ func devMain(args []string) {
 			fmt.Printf("%s %-8s %-7s %5.2fs %s  [%s] %s\n", mark, o.Status, o.Solver, o.Seconds, o.Name, o.Pos, o.Text)
 			if !ok && *verbose {
 				for k, val := range o.Model {
+					if strings.Contains(k, "bvadd") {
+						continue
+					}
 					fmt.Printf("       %s = %s\n", k, val)
 				}
 				if len(o.Model) == 0 {
@@ -123,4 +139,21 @@ func devMain(args []string) {
 		}
 	}
 	fmt.Printf("%d obligations, %d problems\n", len(all), bad)
+}
+
+func init() {
+	devHooks["ssa"] = func(v *Verifier, args []string) {
+		for _, k := range v.cs.Order {
+			_ = k
+		}
+		for _, a := range args {
+			for _, p := range v.spkgs {
+				for fn := range allFuncs(v) {
+					if fn.Pkg == p && strings.Contains(fn.String(), a) {
+						fn.WriteTo(os.Stdout)
+					}
+				}
+			}
+		}
+	}
 }
